@@ -252,6 +252,9 @@ func ccScenario(rng *rand.Rand, timeout time.Duration) []tr.Ev {
 			srv.mu.Unlock()
 			if c != nil {
 				rec.Emit("SrvClose", "k", k)
+				if tc, ok := c.(*net.TCPConn); ok && rng.Intn(2) == 0 {
+					tc.SetLinger(0) // abortive close: RST instead of FIN (a killed or restarted server)
+				}
 				c.Close()
 			}
 		}
